@@ -520,7 +520,7 @@ def _gen_group(draw, cx, depth, hook):
     _maybe_display(draw, cx, g)
     _maybe_clip(draw, cx, g, p=3)
     if cx.cfg.opacity and draw(st.integers(0, 1)) == 0:
-        v = draw(st.sampled_from(["0.5", "0.25", "0.8", "1", "0", ".6", "0.5", "1.5", "-0.25", "2"] + (["0.02", "0.03", "0.02"] if cx.cfg.tiny_opacity else [])))
+        v = draw(st.sampled_from(["0.5", "0.25", "0.8", "1", "0", ".6", "0.5", "1.5", "-0.25", "2"] + (["0.02", "0.03", "0.02", "0.37255", "0.654321"] if cx.cfg.tiny_opacity else [])))
         if draw(st.booleans()):
             g["a"]["opacity"] = v
         else:
@@ -825,7 +825,7 @@ def _strip(n):
 
 # ------------------------------------------------------------------ cascade hook (C05)
 
-_TINY = ["0.02", "0.03", "0.02"]
+_TINY = ["0.02", "0.03", "0.02", "0.37255", "0.123456"]  # the last two: more decimals than the default rounding keeps
 _OPAC = ["0.5", "0.25", ".8", "1", "0", "0.6", "1.5", "-0.25"]  # values outside [0,1] are clamped by SVG
 
 
